@@ -163,6 +163,11 @@ def check_builder(ctx, facts, body, rule="R1", TBA=TBA, KEYFRAME=KEYFRAME):
             continue
         callterm, X = st
         ctx.ob(rule, inst + "/sorted", True, "keyframes = sort(%s)" % show(X), body["span"])
+        # keyframes that share a position are consecutive keyframes in the order they were given (a step): the sort must keep
+        # equal elements in their relative order
+        ctx.ob(rule, inst + "/sort-stable", "unstable" not in callterm[1],
+               "the keyframe sort must be stable (keyframes at one position keep the order in which they were given); it is %s"
+               % callterm[1], body["span"], trace_of(p), what="sort-not-stable")
         # nothing that depends on the insertion order may happen before the sort: its input is the configuration's own
         # keyframe vector, unmodified (no element rewritten, nothing derived from "the first / the last added")
         src = X
@@ -178,7 +183,7 @@ def check_builder(ctx, facts, body, rule="R1", TBA=TBA, KEYFRAME=KEYFRAME):
                "the sort must be applied to the configuration's keyframes as they were given - nothing may be rewritten or "
                "derived from the insertion order before it; input %s, mutating calls before the sort: %s"
                % (show(X)[:160], pre_mut), body["span"], trace_of(p), what="order-dependent-step-before-sort")
-        comparator_ok(ctx, facts, "R2", callterm, body["span"], kf_roles)
+        comparator_ok(ctx, facts, "R2" if rule == "R1" else rule, callterm, body["span"], kf_roles)
         for name, v in agg[4]:
             if name == roles["keyframes"]:
                 continue
